@@ -346,6 +346,72 @@ def run_validity(ctx, L):
         L.destroy(cif)
 
 
+PARSER_CODES = [('anonymous', None), ('overlong', 'Lq' * 1100), ('overlong-supplementary', 'Z\U00010400' * 1030),
+                ('disallowed-character', 'Bad\ufdd0Code'), ('disallowed-control', 'Ctl\x01Code')]
+
+
+def run_parser_created(ctx, L, icu):
+    """blocks the tolerant parser creates under codes cif_create_block() refuses (documented recoveries: data before any
+    block header go to a block with the empty code; an invalid code is reported and used anyway) are objects created
+    under a spelling like any other: they are found under that spelling and its case variants, and by a second parse.
+    (U+FFFE / U+FFFF are left out: the storage engine hands them back as U+FFFD, which C12 documents as tolerated.)"""
+    from .. import parsing
+    for why, code in PARSER_CODES:
+        ctx.count('parser_created_code_cases')
+        head = '' if code is None else 'data_%s\n' % code
+        doc1 = ('#\\#CIF_2.0\n%s_first 1\n' % head).encode('utf-8')
+        doc2 = ('#\\#CIF_2.0\n%s_second 2\n' % (head.swapcase() if why.startswith('overlong') else head)).encode('utf-8')
+        info = dict(why=why, code=cps(code or '')[:60])
+        res = parsing.parse(L, doc1, parsing.make_opts(), 'new', 'accept')
+        cif = res.cif
+        if res.rc != CIF_OK or not cif:
+            # whether the parser goes on after such a code is C12's business; nothing was created, nothing to match
+            ctx.count('parser_created_code_not_created')
+            if cif:
+                L.destroy(cif)
+            continue
+        try:
+            rc, blocks = L.get_all_blocks(cif)
+            spelled = []
+            for h in blocks or []:
+                rc, c = L.get_code(h)
+                spelled.append(c)
+                L.container_free(h)
+            if len(spelled) != 1:
+                ctx.count('parser_created_code_not_created')
+                continue
+            own = spelled[0]
+            for variant in sorted(set([own, own.upper(), own.lower(), icu.nfd(own) if hasattr(icu, 'nfd') else own])):
+                if icu.cif_norm(variant) != icu.cif_norm(own):
+                    continue
+                rc, h = L.get_block(cif, variant)
+                if rc != CIF_OK:
+                    ctx.violation('match:parser-created-block:lookup:missed', 'the parser created a block with the code %s (%s); cif_get_block(%s) -> %d'
+                                  % (cps(own)[:80], why, cps(variant)[:80], rc), info)
+                    continue
+                rc2, v = L.get_value(h, '_first')
+                if v:
+                    L.value_free(v)
+                L.container_free(h)
+                if rc2 != CIF_OK:
+                    ctx.violation('match:parser-created-block:lookup:wrong-block', 'the block found for %s does not hold the parsed item: get_value -> %d' % (cps(variant)[:80], rc2), info)
+            # the same code again, in a second document parsed into the same CIF: reported as a duplicate, block re-opened
+            res2 = parsing.parse(L, doc2, parsing.make_opts(), cif, 'accept')
+            codes = [e[0] for e in res2.errors]
+            # (data before any header are reported as such each time; nothing says the anonymous block is also a duplicate)
+            if res2.rc != CIF_OK or (code is not None and CIF_DUP_BLOCKCODE not in codes):
+                ctx.violation('match:parser-created-block:reparse:%s' % ('failed' if res2.rc != CIF_OK else 'not-a-duplicate'),
+                              'second document with the block code %s (%s) parsed into the same CIF: cif_parse -> %d, errors %r' % (cps(own)[:80], why, res2.rc, codes[:6]), info)
+            else:
+                rc, blocks = L.get_all_blocks(cif)
+                for h in blocks or []:
+                    L.container_free(h)
+                if len(blocks or []) != 1:
+                    ctx.violation('match:parser-created-block:reparse:second-block', 'after the second document there are %d blocks' % len(blocks or []), info)
+        finally:
+            L.destroy(cif)
+
+
 def worker(ctx):
     L = ctx.L
     icu = ICUmod.get()
@@ -368,6 +434,7 @@ def worker(ctx):
             run_api(ctx, L, icu, i, ctx.params['triples_per_case'])
         else:
             run_validity(ctx, L)
+            run_parser_created(ctx, L, icu)
         ctx.count('cases')
         ctx.drain_events(dict(index=i))
     for suffix, detail in scope.finish():
@@ -398,6 +465,7 @@ def run(env):
             normalizations=res.count('normalizations'), pair_strings=res.count('pair_strings'),
             srclen_cases=res.count('srclen_cases'), api_triples=res.count('api_triples'),
             table_key_cases=res.count('table_key_cases'), parser_duplicate_cases=res.count('parser_duplicate_cases'), validity_cases=res.count('validity_cases'),
+            parser_created_code_cases=res.count('parser_created_code_cases'), parser_created_code_not_created=res.count('parser_created_code_not_created'),
             icu_unicode_version=sorted(res.sets.get('unicode_version', ())), crashes=res.crashes),
         violations=res.violations, inconclusive=inconclusive,
         assumptions=['ICU itself is trusted; the oracle uses unorm2_normalize and ucasemap_utf8FoldCase, the library '
